@@ -7,10 +7,12 @@
 EXTENDS HistOps, TLC, Json
 
 CONSTANTS NSet, MSet, TSet, Weights, Depth, Emit
-VARIABLES c, bins, acc, normed, h
-vars == <<c, bins, acc, normed, h>>
+VARIABLES c, c0, bins, acc, normed, h      \* c0: the configuration the object was created with
+vars == <<c, c0, bins, acc, normed, h>>
 
 Configs == [n : NSet, m : MSet, t : TSet, per : BOOLEAN]
+\* configurations an object may be re-initialised with (kept small: it multiplies the branching)
+ReConfigs == {cc \in Configs : cc.m = CHOOSE x \in MSet : TRUE}
 
 \* interesting values for a configuration: edges, centres, far images, far outside
 Vals(cc) == LET s == Step(cc)  L == cc.n * s  mx == MaxOf(cc) IN
@@ -25,7 +27,7 @@ Total == SumSeq(bins, c.n)
 Obs == [bins |-> [k \in 1..c.n |-> bins[k - 1]], acc |-> acc, normed |-> normed,
         num |-> One, den |-> Total * Step(c)]   \* after Normalize: value_k = bins[k]*num/den
 
-Init == /\ c \in Configs
+Init == /\ c \in Configs /\ c0 = c
         /\ bins = Zero(c) /\ acc = 0 /\ normed = FALSE
         /\ h = <<>>
 
@@ -34,24 +36,32 @@ Process(v, w) ==
   /\ LET k == SpecBin(c, v) IN
        /\ bins' = IF k = Discard THEN bins ELSE [bins EXCEPT ![k] = @ + w]
        /\ acc' = IF k = Discard THEN acc ELSE acc + w
-  /\ UNCHANGED <<c, normed>>
+  /\ UNCHANGED <<c, c0, normed>>
   /\ h' = Append(h, [a |-> "proc", v |-> v, w |-> w, k |-> SpecBin(c, v), b |-> BinSeq(bins')])
 
 Normalize ==
   /\ ~normed /\ Total > 0
   /\ normed' = TRUE
-  /\ UNCHANGED <<c, bins, acc>>
+  /\ UNCHANGED <<c, c0, bins, acc>>
   /\ h' = Append(h, [a |-> "norm", b |-> BinSeq(bins), den |-> Total * Step(c)])
 
 Clear ==
   /\ bins' = Zero(c) /\ acc' = 0 /\ normed' = FALSE
-  /\ UNCHANGED c
+  /\ UNCHANGED <<c, c0>>
   /\ h' = Append(h, [a |-> "clear", b |-> BinSeq(bins')])
+
+\* the same object is initialised again with another range / bin count / mode: it must behave like a fresh one
+ReInit(cc) ==
+  /\ cc # c
+  /\ c' = cc /\ bins' = Zero(cc) /\ acc' = 0 /\ normed' = FALSE /\ UNCHANGED c0
+  /\ h' = Append(h, [a |-> "reinit", n |-> cc.n, m |-> cc.m, t |-> cc.t, per |-> cc.per,
+                      s |-> Step(cc), mx |-> MaxOf(cc), b |-> [k \in 1..cc.n |-> 0]])
 
 Next == /\ Len(h) < Depth
         /\ \/ \E v \in Vals(c), w \in Weights : Process(v, w)
            \/ Normalize
            \/ Clear
+           \/ \E cc \in ReConfigs : ReInit(cc)
 Spec == Init /\ [][Next]_vars
 
 \* ---- properties --------------------------------------------------------------
@@ -64,7 +74,7 @@ UnitIntegral == normed => /\ Total > 0
 PeriodicAcceptsAll == [][c.per /\ Len(h') > Len(h) /\ h'[Len(h')].a = "proc"
                           => acc' = acc + h'[Len(h')].w]_vars
 Leaf == (Emit /\ Len(h) = Depth) =>
-          PrintT(ToJson([cfg |-> [n |-> c.n, m |-> c.m, t |-> c.t, per |-> c.per,
-                                  s |-> Step(c), mx |-> MaxOf(c)],
+          PrintT(ToJson([cfg |-> [n |-> c0.n, m |-> c0.m, t |-> c0.t, per |-> c0.per,
+                                  s |-> Step(c0), mx |-> MaxOf(c0)],
                          h |-> h, final |-> Obs]))
 =============================================================================
